@@ -1,4 +1,5 @@
 import PPProofs.Lemmas.DiagramLinks
+import PPProofs.Lemmas.DiagramRoot
 import PPProofs.Props.C20
 /-!
 # C20 — the clauses links_resolve / root_first / no_empty_placeholder under decidable hypotheses
@@ -71,5 +72,129 @@ example : noEllipsisName gRootOnCycle = true ∧
     ∃ ds, toRailroad gRootOnCycle opts0 20 0 = some ds ∧ ds.flatMap (·.tree.links) ≠ [] := by
   refine ⟨by decide +kernel, _, rfl, ?_⟩
   decide +kernel
+
+/-! ## root_first -/
+
+/-- the hypothesis of `root_first_partial`, executable: the root has a custom name and is worth
+    extracting (`cut`), is shown, no other element has the same custom name, and the name is not "..." -/
+def rootFirstHyp (g : Grammar) (o : Opts) (root : Nat) : Bool :=
+  cut g root && rootVisible g o root && nameUniqueAt g root && (customOf g root != some "...")
+
+/-- **root_first_partial** (full clause: for ANY grammar the root's diagram is the first of the output -
+    false: `unnamed_forward_root_witness` (an unnamed Forward root is bypassed, no diagram at all),
+    `root_not_first_witness` (an unnamed root on a named cycle is registered twice)).  Proved: if the
+    root has a custom name and is worth extracting, is shown, and its custom name is carried by no
+    other element and is not "..." (`rootFirstHyp`), then for all options and every fuel at which the
+    conversion returns the output is non-empty and its first diagram is the one named after the root.
+    No hypothesis on the rest of the grammar (cycles, unnamed Forwards below the root, duplicates
+    among other names).
+    Missing from the full clause: roots without custom name that lie on no cycle (they are first as
+    well, but that needs the reachability argument "the root is never visited again"), and custom-named
+    roots that are not worth extracting (all children are leaves). -/
+theorem root_first_partial (g : Grammar) (o : Opts) (fuel root : Nat) (ds : List Named)
+    (hyp : rootFirstHyp g o root = true) (h : toRailroad g o fuel root = some ds) :
+    (names ds).head? = some (customOf g root) := by
+  unfold rootFirstHyp at hyp
+  simp only [Bool.and_eq_true, bne_iff_ne, ne_eq] at hyp
+  obtain ⟨⟨⟨hcut, hvis⟩, huniq⟩, hne⟩ := hyp
+  have htr : truthy (customOf g root) = true := by
+    unfold cut at hcut; simp only [Bool.and_eq_true] at hcut; exact hcut.1
+  unfold toRailroad at h
+  split at h
+  · exact absurd h (by simp)
+  · rename_i s hs
+    simp only [Option.some.injEq] at h
+    subst h
+    -- the state after the conversion
+    have key : RInv root s ∧ LInv g s ∧ aget s.lookup root = none := by
+      unfold convertRoot at hs
+      split at hs
+      · exact absurd hs (by simp)
+      · rename_i r s0 hc
+        obtain ⟨hl, hp0, _⟩ := conv_step g o fuel root none 0 none {} r s0 hc (LInv_init g)
+        have hR := conv_root_RInv g o fuel root r s0 hcut hvis hc
+        have hnone : aget s0.lookup root = none := by
+          cases hst : aget s0.lookup root with
+          | none => rfl
+          | some st =>
+            have hx := (hl.lk root st hst).1 ((hR.lk root st hst).1 rfl).2
+            obtain ⟨_, h0, _⟩ := hp0 root ⟨st, hst, hx⟩
+            exact absurd h0 (by simp)
+        rw [hnone] at hs
+        simp only [Option.some.injEq] at hs
+        subst hs
+        exact ⟨hR, hl, hnone⟩
+    obtain ⟨hR, hl, hnone⟩ := key
+    obtain ⟨d, hd⟩ : ∃ d, aget s.diagrams root = some d := by
+      rcases hR.known with ⟨st, hst⟩ | hd
+      · rw [hnone] at hst; exact absurd hst (by simp)
+      · exact hd
+    have hdname : d.name = customOf g root := (hl.dg root d hd).1
+    have hdidx : d.index = 1 := (hR.dg root d hd).1 rfl
+    have hmem : d ∈ s.diagrams.map (·.2) := aget_mem _ _ _ hd
+    -- entries of the table are determined by their key
+    have hkey : ∀ e ∈ s.diagrams.map (·.2), ∃ u, aget s.diagrams u = some e := by
+      intro e he
+      obtain ⟨⟨u, e'⟩, hp, rfl⟩ := List.mem_map.mp he
+      exact ⟨u, mem_aget _ _ _ hR.dk hp⟩
+    have hroot_of_idx : ∀ e ∈ s.diagrams.map (·.2), e.index ≤ 1 → e = d := by
+      intro e he hle
+      obtain ⟨u, hu⟩ := hkey e he
+      by_cases hur : u = root
+      · subst hur; rw [hd] at hu; simp only [Option.some.injEq] at hu; exact hu.symm
+      · have := (hR.dg u e hu).2 hur; omega
+    have huniq' : ∀ e ∈ s.diagrams.map (·.2), e.name = d.name → e = d := by
+      intro e he hn
+      obtain ⟨u, hu⟩ := hkey e he
+      have : customOf g u = customOf g root := by rw [← (hl.dg u e hu).1, hn, hdname]
+      have hur := nameUniqueAt_spec huniq htr u this
+      subst hur
+      rw [hd] at hu; simp only [Option.some.injEq] at hu; exact hu.symm
+    have hsel : d ∈ selected s := by
+      unfold selected
+      simp only
+      split
+      · exact dedupe_keeps _ [] d hmem (by rw [hdname]; exact truthy_isSome htr) (by rw [hdname]; exact hne)
+          (by simp) huniq'
+      · exact hmem
+    have hsub : ∀ e ∈ selected s, e ∈ s.diagrams.map (·.2) := by
+      intro e he
+      unfold selected at he
+      simp only at he
+      split at he
+      · exact dedupe_sub _ _ _ he
+      · exact he
+    have hperm := sortByIndex_perm ((selected s).map (entryTree s))
+    have hsorted := sortByIndex_sorted ((selected s).map (entryTree s))
+    have hin : entryTree s d ∈ sortByIndex ((selected s).map (entryTree s)) :=
+      hperm.mem_iff.mpr (List.mem_map.mpr ⟨d, hsel, rfl⟩)
+    cases hds : sortByIndex ((selected s).map (entryTree s)) with
+    | nil => rw [hds] at hin; exact absurd hin (by simp)
+    | cons a rest =>
+      rw [hds] at hin hsorted
+      have ha_mem : a ∈ (selected s).map (entryTree s) := hperm.mem_iff.mp (by rw [hds]; exact List.mem_cons_self ..)
+      obtain ⟨e, he, rfl⟩ := List.mem_map.mp ha_mem
+      have hle : (entryTree s e).index ≤ 1 := by
+        rcases List.mem_cons.mp hin with h1 | h1
+        · rw [← h1]; show d.index ≤ 1; omega
+        · have := sorted_head_min rest _ hsorted _ h1
+          have h2 : (entryTree s d).index = 1 := hdidx
+          omega
+      have hed : e = d := hroot_of_idx e (hsub e he) hle
+      subst hed
+      simp only [names, List.map_cons, List.head?_cons, Option.some.injEq]
+      exact hdname
+
+/-- non-vacuity: the named recursive grammar `E <<= Word(nums) | '(' + E + ')'` with root E -/
+example : rootFirstHyp gNamed opts0 0 = true ∧ (toRailroad gNamed opts0 6 0).isSome = true ∧
+    customOf gNamed 0 = some "E" :=
+  ⟨by decide +kernel, by decide +kernel, by decide +kernel⟩
+
+/-- the hypothesis is needed: both registered witnesses violate it (the roots have no custom name),
+    and their outputs are empty resp. start with another diagram -/
+example : rootFirstHyp gFwdRoot opts0 0 = false ∧ rootFirstHyp gRootOnCycle opts0 0 = false ∧
+    (toRailroad gFwdRoot opts0 10 0).map names = some [] ∧
+    ∃ ds, toRailroad gRootOnCycle opts0 20 0 = some ds ∧ (names ds).head? = some (some "E") :=
+  ⟨by decide +kernel, by decide +kernel, unnamed_forward_root_witness, root_not_first_witness⟩
 
 end PP.Diagram
